@@ -57,6 +57,26 @@ fn parse_kinds(a: &Value) -> Value {
     json!({"root": format!("{:?}", root.kind()), "tree_tokens": tree_tokens, "input_tokens": texts, "diagnostics": diags.len(), "bad_ranges": bad})
 }
 
+fn lower_kinds(a: &Value) -> Value {
+    // tokens given by kind names (+ texts): real parser, real tree, real ast::lower
+    let table = kind_table(&a[1]);
+    let idx = |n: &str| a[1].as_array().unwrap().iter().position(|x| x.as_str() == Some(n)).unwrap();
+    let kinds: Vec<lexer::TokenKind> = a[0].as_array().unwrap().iter().map(|n| table[idx(n.as_str().unwrap())]).collect();
+    let texts: Vec<&'static str> = a[2].as_array().unwrap().iter().map(|t| &*Box::leak(t.as_str().unwrap().to_string().into_boxed_str())).collect();
+    let mut pos = 0u32;
+    let toks: Vec<lexer::Token<'static>> = kinds.iter().enumerate().map(|(i, k)| { let s = pos; pos += texts[i].len() as u32;
+        lexer::Token { kind: *k, text: texts[i], range: rowan::TextRange::new(s.into(), pos.into()) } }).collect();
+    let mut p = parser::parser::Parser::new(std::path::Path::new("x.gom"), toks);
+    parser::file::file(&mut p);
+    let (green, _d) = p.build_tree().into_parts();
+    let root: parser::syntax::MySyntaxNode = rowan::SyntaxNode::new_root(green);
+    let file = <cst::cst::File as cst::cst::CstNode>::cast(root).unwrap();
+    let (astf, diags) = ast::lower::lower(file).into_parts();
+    let mut bad = 0;
+    for d in diags.iter() { if let Some(r) = d.range() { let e: u32 = r.end().into(); if e > pos { bad += 1; } } }
+    json!({"has_ast": astf.is_some(), "diagnostics": diags.len(), "bad_ranges": bad})
+}
+
 fn handle(req: &Value) -> Value {
     let f = req["fn"].as_str().unwrap_or("");
     let a = &req["args"];
@@ -71,9 +91,21 @@ fn handle(req: &Value) -> Value {
             json!(serde_json::to_string(&u).unwrap())
         }
         "parse_kinds" => parse_kinds(a),
+        "lower_kinds" => lower_kinds(a),
         "lex" => {
             let toks = lexer::lex(a[0].as_str().unwrap());
             json!(toks.iter().map(|t| json!([format!("{:?}", t.kind), t.text, u32::from(t.range.start()), u32::from(t.range.end())])).collect::<Vec<_>>())
+        }
+        "lower_text" => {
+            let r = parser::parse(std::path::Path::new("x.gom"), a[0].as_str().unwrap());
+            let (green, _d) = r.into_parts();
+            let root: parser::syntax::MySyntaxNode = rowan::SyntaxNode::new_root(green);
+            let file = <cst::cst::File as cst::cst::CstNode>::cast(root).unwrap();
+            let res = ast::lower::lower(file);
+            let (astf, diags) = res.into_parts();
+            let items: Vec<String> = astf.as_ref().map(|f| f.toplevels.iter().map(|i| { let d = format!("{:?}", i); d.split(|c: char| !c.is_alphanumeric()).next().unwrap_or("").to_string() }).collect()).unwrap_or_default();
+            json!({"has_ast": astf.is_some(), "diagnostics": diags.len(), "items": items,
+                   "debug_len": astf.as_ref().map(|f| format!("{:?}", f.toplevels).len()).unwrap_or(0)})
         }
         "parse_text" => {
             let r = parser::parse(std::path::Path::new("x.gom"), a[0].as_str().unwrap());
